@@ -204,7 +204,7 @@ func (c *Ctx) analyseRegulation() *regulation {
 				}
 				if cc, ok := ins.(ssa.CallInstruction); ok {
 					for _, cal := range c.Callees(cc) {
-						if c.mayStoreField(cal, "DefaultFanController", name) {
+						if c.mayStoreField(cal, recvTypeName(T), name) {
 							ci.incrCalls = append(ci.incrCalls, ins)
 						}
 					}
@@ -236,8 +236,13 @@ func (r *regulation) symName(v ssa.Value) string {
 	t := r.tb.Of(v, nil)
 	s := t.String()
 	s = strings.ReplaceAll(s, "invoke:"+PkgFans+".", "")
-	s = strings.ReplaceAll(s, "(field:fan(recv:DefaultFanController))", "()")
-	s = strings.ReplaceAll(s, "(recv:DefaultFanController)", "")
+	for _, ci := range r.cycles {
+		if ci.target != nil {
+			rn := recvTypeName(ci.target)
+			s = strings.ReplaceAll(s, "(field:fan(recv:"+rn+"))", "()")
+			s = strings.ReplaceAll(s, "(recv:"+rn+")", "")
+		}
+	}
 	if len(s) > 70 {
 		s = s[:70] + "…"
 	}
@@ -338,7 +343,7 @@ func (r *regulation) ruleFreshness(rule string) {
 			return nil
 		}
 		o, n, _ := ir.FieldName(fa)
-		if o == nil || o.Obj().Name() != "DefaultFanController" || n != name {
+		if o == nil || o.Obj().Pkg() == nil || o.Obj().Pkg().Path() != PkgCtrl || n != name {
 			return nil
 		}
 		return st
@@ -591,7 +596,7 @@ func (r *regulation) ruleOffsets(rule string) {
 	n := 0
 	for _, ci := range r.cycles {
 		for name := range ci.offFields {
-			for _, st := range c.storesToField(PkgCtrl, "DefaultFanController", name) {
+			for _, st := range c.storesToField(PkgCtrl, recvTypeName(ci.target), name) {
 				n++
 				fn := st.Parent()
 				key := c.FK(fn) + "|" + name
